@@ -370,9 +370,7 @@ Proof.
   intros reads Hall M mac k0 ps t r sched l input g m Hp Hr Hh.
   destruct (Hall r) as [He|Hw].
   - (* no read at all: no header *)
-    rewrite He in Hp.
-    destruct (signer_invariant (w_init k0) ps t [] sched l Hp Hr) as [_ _].
-    exfalso.
+    rewrite He in Hp. exfalso.
     pose proof (task_replay handle (w_init k0) ps sched t _ Hp) as Ht.
     unfold result_of in Hr. rewrite Ht in Hr. unfold signer0 in Hr. simpl in Hr.
     rewrite replay_ret in Hr. inversion Hr; subst l. discriminate.
